@@ -298,7 +298,7 @@ def make_overlay(ctx):
     return path
 
 
-def go_test(ctx, pkg, run, env=None, timeout=1200, race=False, count=1, binary=None, args=None):
+def go_test(ctx, pkg, run, env=None, timeout=1200, race=False, count=1, binary=None, args=None, verbose=False):
     """go test -overlay ... -tags verif -run <run> ./<pkg>  (cwd=/repo).
     Returns (rc, output).  A build failure raises Inconclusive."""
     ov = make_overlay(ctx)
@@ -308,6 +308,8 @@ def go_test(ctx, pkg, run, env=None, timeout=1200, race=False, count=1, binary=N
            "-timeout", "%ds" % timeout, "-run", run]
     if race:
         cmd.append("-race")
+    if verbose:
+        cmd.append("-v")
     cmd.append("./" + pkg)
     if args:
         cmd += ["-args"] + list(args)
